@@ -19,6 +19,8 @@ func init() {
 			{"RANGE-TABLE", ruleRangeTable},
 			{"UNIQUE-CHECK", ruleUniqueCheck},
 			{"KIND-TABLES", ruleKindTables},
+			{"ORDER-AGREEMENT", ruleOrderAgreement},
+			{"INDEX-UPDATE-TABLE", ruleIndexUpdateTable},
 			{"ERRFLOW", func(c *eng.Ctx) {
 				ruleErrFlowCone(c, "ERRFLOW", []string{
 					"internal/db.(*collection).indexNewDoc", "internal/db.(*collection).updateIndexedDoc",
@@ -717,4 +719,173 @@ func ruleKindTables(c *eng.Ctx) {
 			"indexable kind has a typed nil", "kind "+k+" is indexable but client.NewNormalNil has no case for it: a null value of that kind cannot be written to / read from an index entry")
 	}
 	c.Floor(rule, len(supported), 10)
+}
+
+// orderAgreeExceptions: iterator constructors that need not consult the requested order.
+var orderAgreeExceptions = map[string]string{
+	"newEqSingleIndexIterator": "yields at most one entry (unique index fetched by its full key): order is trivial",
+}
+
+// ruleOrderAgreement: the planner drops the order node whenever CanBeOrderedByIndex holds for the
+// chosen index; every index iterator the fetcher can create for a query must therefore consult the
+// same predicate and read the index in the direction it reports.
+func ruleOrderAgreement(c *eng.Ctx) {
+	const rule = "ORDER-AGREEMENT"
+	// planner side: isOrderedByIndex decides with CanBeOrderedByIndex
+	if fi := c.Anchor(rule, "internal/planner.isOrderedByIndex"); fi != nil {
+		ok := eng.ContainsCallTo(fi.Pkg.TypesInfo, fi.Decl.Body, false, "internal/db/fetcher.CanBeOrderedByIndex") != nil
+		c.Check(ok, rule, "planner.isOrderedByIndex:uses(CanBeOrderedByIndex)", fi.Decl.Pos(), "planner elides the order node exactly when CanBeOrderedByIndex holds", "the planner no longer decides order elision with fetcher.CanBeOrderedByIndex: planner and fetcher can disagree on who orders the result")
+	}
+	root := c.Anchor(rule, "internal/db/fetcher.(*indexFetcher).createIndexIterator")
+	if root == nil {
+		return
+	}
+	info := root.Pkg.TypesInfo
+	n := 0
+	seen := map[string]bool{}
+	consults := func(fi *eng.FuncInfo) bool {
+		if eng.ContainsCallTo(fi.Pkg.TypesInfo, fi.Decl.Body, true, "internal/db/fetcher.CanBeOrderedByIndex") != nil {
+			return true
+		}
+		return false
+	}
+	for _, cs := range eng.Calls(info, root.Decl.Body) {
+		g := c.P.FuncOfObj(cs.Callee)
+		if g == nil || g.Pkg != root.Pkg || g.Decl.Body == nil {
+			continue
+		}
+		sig := g.Obj.Type().(*types.Signature)
+		if sig.Results().Len() == 0 {
+			continue
+		}
+		rt := eng.TypeName(sig.Results().At(0).Type())
+		if !strings.Contains(strings.ToLower(rt), "iterator") {
+			continue
+		}
+		name := g.Obj.Name()
+		if seen[name] {
+			continue
+		}
+		seen[name] = true
+		n++
+		if why, ok := orderAgreeExceptions[name]; ok {
+			c.OK(rule, "createIndexIterator→"+name, cs.Call.Pos(), "tabled exception: "+why)
+			continue
+		}
+		c.Check(consults(g), rule, "createIndexIterator→"+name+":consults-requested-order", cs.Call.Pos(), "the iterator reads the index in the direction CanBeOrderedByIndex reports",
+			name+" creates an index iterator without consulting CanBeOrderedByIndex: when the planner relies on the index for the requested order (and drops the order node) this iterator yields the documents in another order")
+	}
+	c.Floor(rule, n, 4)
+}
+
+// ruleIndexUpdateTable: decision table of isUpdatingIndexedFields over (old value present, new value
+// present, values equal) for one indexed field: absent/absent and present/present/equal go on to
+// the next field, absent/present and present/present/different report an update; after the last
+// field the answer is "no update".
+func ruleIndexUpdateTable(c *eng.Ctx) {
+	const rule = "INDEX-UPDATE-TABLE"
+	fi := c.Anchor(rule, "internal/db.isUpdatingIndexedFields")
+	if fi == nil {
+		return
+	}
+	info := fi.Pkg.TypesInfo
+	ps := paramObjs(info, fi.Decl)
+	if len(ps) != 3 {
+		c.Unknown(rule, "isUpdatingIndexedFields:params", fi.Decl.Pos(), "anchor-unresolved: (index, oldDoc, newDoc)")
+		return
+	}
+	oldDoc, newDoc := ps[1], ps[2]
+	var oldErr, newErr types.Object
+	var first *ast.AssignStmt
+	ast.Inspect(fi.Decl.Body, func(m ast.Node) bool {
+		as, ok := m.(*ast.AssignStmt)
+		if !ok || len(as.Rhs) != 1 || len(as.Lhs) != 2 {
+			return true
+		}
+		call, ok := as.Rhs[0].(*ast.CallExpr)
+		if !ok || eng.CalleeName(info, call) != "client.(*Document).GetValue" {
+			return true
+		}
+		se := call.Fun.(*ast.SelectorExpr)
+		switch eng.ObjOf(info, se.X) {
+		case oldDoc:
+			oldErr = eng.ObjOf(info, as.Lhs[1])
+			if first == nil {
+				first = as
+			}
+		case newDoc:
+			newErr = eng.ObjOf(info, as.Lhs[1])
+		}
+		return true
+	})
+	if oldErr == nil || newErr == nil {
+		c.Unknown(rule, "isUpdatingIndexedFields:slots", fi.Decl.Pos(), "anchor-unresolved: GetValue on the old and the new document")
+		return
+	}
+	flow := eng.NewFlow(info, fi.Decl.Body)
+	type cell struct {
+		oldPresent, newPresent, equal bool
+		want                          string
+	}
+	cells := []cell{
+		{false, false, true, "next-field"},
+		{false, true, false, "true"},
+		{true, true, true, "next-field"},
+		{true, true, false, "true"},
+	}
+	for _, cl := range cells {
+		atom := func(e ast.Expr) eng.Tri {
+			e = ast.Unparen(e)
+			if is, nonNil := eng.ErrNilTest(info, e, oldErr); is {
+				return eng.TriOf(nonNil == !cl.oldPresent)
+			}
+			if is, nonNil := eng.ErrNilTest(info, e, newErr); is {
+				return eng.TriOf(nonNil == !cl.newPresent)
+			}
+			if call, ok := e.(*ast.CallExpr); ok {
+				if se, ok := call.Fun.(*ast.SelectorExpr); ok && se.Sel.Name == "Equal" {
+					return eng.TriOf(cl.equal)
+				}
+			}
+			return eng.Unknown
+		}
+		outs, _ := flow.Paths(eng.PathSpec{
+			Cond: func(br eng.Branch) eng.Tri { return eng.BranchTri(info, br, atom) },
+			Effect: func(n ast.Node) string {
+				if n == ast.Node(first) {
+					return "field"
+				}
+				return ""
+			},
+		})
+		got := map[string]bool{}
+		for _, o := range outs {
+			if len(o.Effects) == 0 {
+				continue
+			}
+			switch o.Kind {
+			case "loop":
+				got["next-field"] = true
+			case "return":
+				if len(o.Effects) >= 1 && o.Ret != nil && len(o.Ret.Results) == 1 {
+					// a return reached after leaving the loop (all fields seen) counts as next-field for this cell
+					if !within(o.Ret, loopOf(fi.Decl.Body, first)) {
+						got["next-field"] = true
+						continue
+					}
+					switch eng.EvalBool(info, o.Ret.Results[0], atom) {
+					case eng.True:
+						got["true"] = true
+					case eng.False:
+						got["false"] = true
+					default:
+						got["undecided:"+eng.ExprStr(o.Ret.Results[0])] = true
+					}
+				}
+			}
+		}
+		keys := setKeys(got)
+		c.Check(len(keys) == 1 && keys[0] == cl.want, rule, fmt.Sprintf("isUpdatingIndexedFields:cell(old=%v,new=%v,equal=%v)", cl.oldPresent, cl.newPresent, cl.equal), fi.Decl.Pos(), cl.want,
+			fmt.Sprintf("for this field state the function does %v, required %q: an update of a later field of a composite index is not propagated to the index (or every update rewrites it)", keys, cl.want))
+	}
 }
